@@ -196,6 +196,21 @@ pub fn run(a: &Args) {
         let (l, m) = mutate_structural(&b.bytes, &mut rng);
         streams.push((format!("{}~{}", b.name, l), m));
     }
+    // streams whose compressed image data is corrupt at different depths: right behind the zlib header (bad block type), in the zlib
+    // header itself, in the middle of the data, in the Adler-32 trailer (fed whole, the inflater sees header and fault in one call)
+    {
+        use crate::pngbuild::*;
+        let raw = vec![0u8, 1, 2, 3, 0, 4, 5, 6];
+        let good = zlib_stored(&raw, 64);
+        let mut variants: Vec<(&str, Vec<u8>)> = vec![("bad-block-type", vec![0x78, 0x01, 0x07, 0, 0, 0, 0]), ("bad-zlib-header", vec![0x79, 0x01, 0x01, 0, 0])];
+        let mut mid = good.clone(); let k = mid.len() / 2; mid[k] ^= 0xff; variants.push(("corrupt-middle", mid));
+        let mut adl = good.clone(); let k = adl.len() - 1; adl[k] ^= 0x01; variants.push(("wrong-adler", adl));
+        variants.push(("empty-idat", vec![]));
+        for (label, z) in variants {
+            streams.push((format!("3x2-{}", label), assemble(&[ihdr(3, 2, 8, 0, 0), Chunk::new(b"IDAT", z), Chunk::new(b"IEND", vec![])])));
+        }
+        streams.push(("3x2-good".into(), assemble(&[ihdr(3, 2, 8, 0, 0), Chunk::new(b"IDAT", good), Chunk::new(b"IEND", vec![])])));
+    }
     for (na, sa) in &streams {
         for (nb, sb) in &streams {
             for opts in [Opts::default(), Opts { ignore_crc: true, ignore_adler: false, ..Opts::default() }] {
